@@ -288,3 +288,207 @@ Proof.
     destruct H as (r & -> & W & E). exists r. rewrite Z.mod_small by lia. auto.
   - eexists; split; [reflexivity|]. apply U_wrapping_pow_ok; auto.
 Qed.
+
+(* ---------- signed pow ---------- *)
+
+Lemma pow_abs_sign s e : 0 <= e ->
+  s ^ e = if (s <? 0) && Z.odd e then - (Z.abs s ^ e) else Z.abs s ^ e.
+Proof.
+  intros He. destruct (Z.ltb_spec s 0) as [Hs|Hs]; cbn [andb].
+  - replace s with (- Z.abs s) at 1 by lia. destruct (Z.odd e) eqn:Eo.
+    + apply Z.pow_opp_odd. apply Z.odd_spec. exact Eo.
+    + apply Z.pow_opp_even. apply Z.even_spec. rewrite <- Z.negb_odd, Eo. reflexivity.
+  - rewrite Z.abs_eq by lia. reflexivity.
+Qed.
+
+Lemma opp_mod_mod M x : 0 < M -> (- (x mod M)) mod M = (- x) mod M.
+Proof.
+  intros HM. replace (- (x mod M)) with (0 - x mod M) by ring. replace (- x) with (0 - x) by ring.
+  apply Zminus_mod_idemp_r.
+Qed.
+
+Lemma sval_IMIN w n : 0 < w -> (0 < n)%nat -> sval w (IMIN w n) = - (Mod w n / 2).
+Proof.
+  intros Hw Hn. rewrite (sval_unfold w n _ (wf_IMIN w n Hw)), uval_IMIN by auto.
+  pose proof (Mod_even w n Hw Hn). destruct (Z.leb_spec (Mod w n / 2) (Mod w n / 2)); lia.
+Qed.
+
+Lemma sval_IMAX w n : 0 < w -> (0 < n)%nat -> sval w (IMAX w n) = Mod w n / 2 - 1.
+Proof.
+  intros Hw Hn. rewrite (sval_unfold w n _ (wf_IMAX w n Hw)), uval_IMAX by auto.
+  destruct (Z.leb_spec (Mod w n / 2) (Mod w n / 2 - 1)); lia.
+Qed.
+
+(* facts shared by the signed forms: P = |SA|^e, the unsigned overflowing result on |a| *)
+Lemma I_pow_setup (Hmul : mul_spec) w n (Hw : 0 < w) (Hn : (0 < n)%nat) a e :
+  wf w n a -> 0 <= e ->
+  let P := Z.abs (sval w a) ^ e in
+  let u := fst (U_overflowing_pow w (I_unsigned_abs w a) e) in
+  wf w n (I_unsigned_abs w a) /\
+  0 <= P /\ (sval w a < 0 -> 1 <= P) /\
+  wf w n u /\ uval w u = P mod Mod w n /\
+  snd (U_overflowing_pow w (I_unsigned_abs w a) e) = (Mod w n <=? P) /\
+  is_negative w a = (sval w a <? 0) /\
+  sval w a ^ e = (if (sval w a <? 0) && Z.odd e then - P else P).
+Proof.
+  intros Ha He P u. destruct (I_unsigned_abs_spec w n a Hw Hn Ha) as [Wabs Eabs].
+  destruct (U_overflowing_pow_fst_snd Hmul w n Hw Hn _ e Wabs He) as (W & E & F).
+  rewrite Eabs in E, F. fold P in E, F.
+  split; [exact Wabs|]. split; [apply Z.pow_nonneg; lia|].
+  split; [intros Hs; apply pow_ge_1; lia|].
+  split; [exact W|]. split; [exact E|]. split; [exact F|].
+  split; [apply is_negative_sval with n; auto|]. apply pow_abs_sign; auto.
+Qed.
+
+Lemma I_overflowing_pow_fst_snd (Hmul : mul_spec) w n (Hw : 0 < w) (Hn : (0 < n)%nat) a e :
+  wf w n a -> 0 <= e ->
+  wf w n (fst (I_overflowing_pow w a e)) /\
+  sval w (fst (I_overflowing_pow w a e)) = wrapS (Mod w n) (sval w a ^ e) /\
+  snd (I_overflowing_pow w a e) = negb (inS (Mod w n) (sval w a ^ e)).
+Proof.
+  intros Ha He.
+  destruct (I_pow_setup Hmul w n Hw Hn a e Ha He) as (Wabs & HP0 & HP1 & Wu & Eu & Fu & Eneg & Epow).
+  pose proof (Mod_even w n Hw Hn) as Hev. pose proof (Mod_ge_2 w n Hw Hn) as HM2.
+  unfold I_overflowing_pow.
+  destruct (U_overflowing_pow w (I_unsigned_abs w a) e) as [u overflow]. cbn [fst snd] in *.
+  rewrite Epow, Eneg. set (P := Z.abs (sval w a) ^ e) in *. subst overflow.
+  destruct ((sval w a <? 0) && Z.odd e) eqn:Eout.
+  - apply andb_true_iff in Eout. destruct Eout as [Hs _]. apply Z.ltb_lt in Hs. specialize (HP1 Hs).
+    destruct (I_wrapping_neg_spec w n u Hw Wu) as [Wo Eo]. rewrite Eu, opp_mod_mod in Eo by lia.
+    cbn [fst snd]. split; [exact Wo|]. split; [apply sval_of_uval; auto|].
+    rewrite (is_negative_spec w n _ Hw Hn Wo), Eo. unfold inS.
+    destruct (Z.leb_spec (Mod w n) P) as [Hov|Hov].
+    + cbn [orb]. destruct (Z.leb_spec (- (Mod w n / 2)) (- P)); [lia | reflexivity].
+    + replace (- P) with (Mod w n - P + (-1) * Mod w n) at 1 by ring.
+      rewrite Z_mod_plus_full, Z.mod_small by lia. cbn [orb].
+      destruct (Z.leb_spec (Mod w n / 2) (Mod w n - P)); destruct (Z.leb_spec (- (Mod w n / 2)) (- P));
+        destruct (Z.ltb_spec (- P) (Mod w n / 2)); cbn; try reflexivity; lia.
+  - cbn [fst snd]. split; [exact Wu|]. split; [apply sval_of_uval; auto|].
+    rewrite (is_negative_spec w n _ Hw Hn Wu), Eu. unfold inS.
+    destruct (Z.leb_spec (Mod w n) P) as [Hov|Hov].
+    + cbn [orb]. destruct (Z.ltb_spec P (Mod w n / 2)); [lia | rewrite andb_false_r; reflexivity].
+    + rewrite Z.mod_small by lia. cbn [orb].
+      destruct (Z.leb_spec (Mod w n / 2) P); destruct (Z.leb_spec (- (Mod w n / 2)) P);
+        destruct (Z.ltb_spec P (Mod w n / 2)); cbn; try reflexivity; lia.
+Qed.
+
+Theorem I_overflowing_pow_ok : mul_spec -> forall w n a e,
+  0 < w -> (0 < n)%nat -> wf w n a -> 0 <= e ->
+  let '(r, f) := I_overflowing_pow w a e in
+  wf w n r /\ sval w r = wrapS (Mod w n) (sval w a ^ e) /\ f = negb (inS (Mod w n) (sval w a ^ e)).
+Proof.
+  intros Hmul w n a e Hw Hn Ha He.
+  pose proof (I_overflowing_pow_fst_snd Hmul w n Hw Hn a e Ha He) as H.
+  destruct (I_overflowing_pow w a e); exact H.
+Qed.
+
+Theorem I_checked_pow_ok : mul_spec -> forall w n a e,
+  0 < w -> (0 < n)%nat -> wf w n a -> 0 <= e ->
+  if inS (Mod w n) (sval w a ^ e)
+  then exists r, I_checked_pow w a e = Some r /\ wf w n r /\ sval w r = sval w a ^ e
+  else I_checked_pow w a e = None.
+Proof.
+  intros Hmul w n a e Hw Hn Ha He.
+  destruct (I_pow_setup Hmul w n Hw Hn a e Ha He) as (Wabs & HP0 & HP1 & Wu & Eu & Fu & Eneg & Epow).
+  pose proof (Mod_even w n Hw Hn) as Hev. pose proof (Mod_ge_2 w n Hw Hn) as HM2.
+  unfold I_checked_pow. rewrite (U_checked_pow_eq Hmul w n Hw Hn _ e Wabs). unfold tuple_to_option.
+  destruct (U_overflowing_pow w (I_unsigned_abs w a) e) as [u overflow]. cbn [fst snd] in *.
+  rewrite Epow, Eneg. set (P := Z.abs (sval w a) ^ e) in *. subst overflow.
+  rewrite <- Z.negb_odd, <- negb_andb.
+  destruct (Z.leb_spec (Mod w n) P) as [Hov|Hov].
+  { (* the magnitude does not even fit the unsigned type *)
+    destruct ((sval w a <? 0) && Z.odd e); unfold inS.
+    - destruct (Z.leb_spec (- (Mod w n / 2)) (- P)); [lia | reflexivity].
+    - destruct (Z.ltb_spec P (Mod w n / 2)); [lia | rewrite andb_false_r; reflexivity]. }
+  rewrite Z.mod_small in Eu by lia.
+  destruct ((sval w a <? 0) && Z.odd e) eqn:Eout; cbn [negb].
+  - apply andb_true_iff in Eout. destruct Eout as [Hs _]. apply Z.ltb_lt in Hs. specialize (HP1 Hs).
+    destruct (I_wrapping_neg_spec w n u Hw Wu) as [Wo Eo]. rewrite Eu in Eo.
+    rewrite (is_negative_spec w n _ Hw Hn Wo).
+    assert (Eo' : uval w (I_wrapping_neg w u) = Mod w n - P).
+    { rewrite Eo. replace (- P) with (Mod w n - P + (-1) * Mod w n) by ring.
+      rewrite Z_mod_plus_full, Z.mod_small by lia. reflexivity. }
+    rewrite Eo'. unfold inS.
+    destruct (Z.leb_spec (Mod w n / 2) (Mod w n - P)); cbn [negb].
+    + destruct (Z.leb_spec (- (Mod w n / 2)) (- P)); [|lia].
+      destruct (Z.ltb_spec (- P) (Mod w n / 2)); [|lia]. cbn [andb].
+      eexists; split; [reflexivity|]. split; [exact Wo|].
+      rewrite (sval_unfold w n _ Wo), Eo'.
+      destruct (Z.leb_spec (Mod w n / 2) (Mod w n - P)); lia.
+    + destruct (Z.leb_spec (- (Mod w n / 2)) (- P)); [lia | reflexivity].
+  - rewrite (is_negative_spec w n _ Hw Hn Wu), Eu. unfold inS.
+    destruct (Z.leb_spec (Mod w n / 2) P).
+    + destruct (Z.ltb_spec P (Mod w n / 2)); [lia | rewrite andb_false_r; reflexivity].
+    + destruct (Z.leb_spec (- (Mod w n / 2)) P); [|lia].
+      destruct (Z.ltb_spec P (Mod w n / 2)); [|lia]. cbn [andb].
+      eexists; split; [reflexivity|]. split; [exact Wu|].
+      rewrite (sval_unfold w n _ Wu), Eu.
+      destruct (Z.leb_spec (Mod w n / 2) P); lia.
+Qed.
+
+Theorem I_wrapping_pow_ok : mul_spec -> forall w n a e,
+  0 < w -> (0 < n)%nat -> wf w n a -> 0 <= e ->
+  wf w n (I_wrapping_pow w a e) /\ sval w (I_wrapping_pow w a e) = wrapS (Mod w n) (sval w a ^ e).
+Proof.
+  intros Hmul w n a e Hw Hn Ha He. unfold I_wrapping_pow.
+  destruct (U_wrapping_pow_ok Hmul w n a e Hw Hn Ha He) as [W E]. split; [exact W|].
+  apply sval_of_uval; auto. rewrite E.
+  pose proof (Mod_pos w n ltac:(lia)).
+  rewrite (Zpower_mod (sval w a)) by lia. rewrite (sval_mod w n a Hw Ha). rewrite <- Zpower_mod by lia.
+  reflexivity.
+Qed.
+
+Theorem I_saturating_pow_ok : mul_spec -> forall w n a e,
+  0 < w -> (0 < n)%nat -> wf w n a -> 0 <= e ->
+  wf w n (I_saturating_pow w a e) /\
+  sval w (I_saturating_pow w a e) = Z.max (- (Mod w n / 2)) (Z.min (Mod w n / 2 - 1) (sval w a ^ e)).
+Proof.
+  intros Hmul w n a e Hw Hn Ha He.
+  pose proof (I_checked_pow_ok Hmul w n a e Hw Hn Ha He) as H.
+  destruct (I_pow_setup Hmul w n Hw Hn a e Ha He) as (_ & HP0 & HP1 & _ & _ & _ & Eneg & Epow).
+  unfold I_saturating_pow. destruct (inS (Mod w n) (sval w a ^ e)) eqn:Ein.
+  - destruct H as (r & -> & W & E). split; [exact W|]. apply inS_true in Ein. lia.
+  - rewrite H, Eneg, (wf_length _ _ _ Ha).
+    assert (Hout : ~ (- (Mod w n / 2) <= sval w a ^ e < Mod w n / 2)).
+    { intros Hc. apply inS_true in Hc. congruence. }
+    pose proof (Mod_even w n Hw Hn) as Hev. pose proof (Mod_ge_2 w n Hw Hn) as HM2.
+    rewrite Epow in *. destruct ((sval w a <? 0) && Z.odd e) eqn:Eout.
+    + split; [apply wf_IMIN; auto|]. rewrite sval_IMIN by auto. lia.
+    + split; [apply wf_IMAX; auto|]. rewrite sval_IMAX by auto. lia.
+Qed.
+
+(* on overflow the saturated value is MIN exactly for a negative base with an odd exponent *)
+Theorem I_saturating_pow_min : mul_spec -> forall w n a e,
+  0 < w -> (0 < n)%nat -> wf w n a -> 0 <= e -> inS (Mod w n) (sval w a ^ e) = false ->
+  I_saturating_pow w a e = if (sval w a <? 0) && Z.odd e then IMIN w n else IMAX w n.
+Proof.
+  intros Hmul w n a e Hw Hn Ha He Hov.
+  pose proof (I_checked_pow_ok Hmul w n a e Hw Hn Ha He) as H. rewrite Hov in H.
+  unfold I_saturating_pow. rewrite H, (is_negative_sval w n a Hw Hn Ha), (wf_length _ _ _ Ha). reflexivity.
+Qed.
+
+Theorem I_strict_pow_ok : mul_spec -> forall w n a e,
+  0 < w -> (0 < n)%nat -> wf w n a -> 0 <= e ->
+  if inS (Mod w n) (sval w a ^ e)
+  then exists r, I_strict_pow w a e = Ret r /\ wf w n r /\ sval w r = sval w a ^ e
+  else I_strict_pow w a e = Panic.
+Proof.
+  intros Hmul w n a e Hw Hn Ha He.
+  pose proof (I_checked_pow_ok Hmul w n a e Hw Hn Ha He) as H. unfold I_strict_pow.
+  destruct (inS (Mod w n) (sval w a ^ e)).
+  - destruct H as (r & -> & W & E). exists r. auto.
+  - rewrite H. reflexivity.
+Qed.
+
+Theorem I_pow_ok : mul_spec -> forall dbg w n a e,
+  0 < w -> (0 < n)%nat -> wf w n a -> 0 <= e ->
+  if dbg && negb (inS (Mod w n) (sval w a ^ e)) then I_pow dbg w a e = Panic
+  else exists r, I_pow dbg w a e = Ret r /\ wf w n r /\ sval w r = wrapS (Mod w n) (sval w a ^ e).
+Proof.
+  intros Hmul dbg w n a e Hw Hn Ha He. unfold I_pow. destruct dbg; cbn [andb].
+  - pose proof (I_strict_pow_ok Hmul w n a e Hw Hn Ha He) as H.
+    destruct (inS (Mod w n) (sval w a ^ e)) eqn:Ein; cbn [negb]; [|exact H].
+    destruct H as (r & -> & W & E). exists r. split; [reflexivity|]. split; [exact W|].
+    rewrite E. symmetry. apply wrapS_id; [apply Mod_pos; lia | apply Mod_even; auto | apply inS_true; exact Ein].
+  - eexists; split; [reflexivity|]. apply I_wrapping_pow_ok; auto.
+Qed.
